@@ -39,6 +39,8 @@ func NewMMap(fileName string) (*MMap, error) {
 
 	err = m.remap(m.virtualSize, blockSize)
 	if err != nil {
+		// 映射失败时恢复文件真实大小, 避免遗留被扩展的空洞文件
+		_ = fd.Truncate(m.virtualSize)
 		_ = fd.Close()
 		return nil, err
 	}
